@@ -23,6 +23,34 @@
 #ifdef RKCOMMON_TASKING_INTERNAL
 #include "rkcommon/verif/hooks.h"
 #endif
+#ifdef RKCOMMON_TASKING_TBB
+#include <tbb/task.h>
+#include <tbb/task_group.h>
+#endif
+
+// A loop may end early: its body throws (the exception reaches the caller on the TBB and on the serial backend; the
+// other two backends would terminate the process) or cancels its own task group (TBB only). Such a loop is not judged
+// for completeness, but every LATER loop - in particular from the same call site - must again be exact.
+#if defined(RKCOMMON_TASKING_TBB) || (!defined(RKCOMMON_TASKING_OMP) && !defined(RKCOMMON_TASKING_INTERNAL))
+#define VH_C01_EARLY_EXIT 1
+#else
+#define VH_C01_EARLY_EXIT 0
+#endif
+struct EarlyExit
+{
+};
+static inline void endLoopEarly(int how)
+{
+  if (how == 1)
+    throw EarlyExit();
+#ifdef RKCOMMON_TASKING_TBB
+  if (how == 2) {
+    tbb::task_group_context *ctx = tbb::task::current_context();
+    if (ctx)
+      ctx->cancel_group_execution();
+  }
+#endif
+}
 
 using namespace rkcommon::tasking;
 
@@ -224,6 +252,7 @@ struct Case
   int inject;  // permille of hook delays (internal backend)
   long long inner;
   bool grace;
+  int early;  // 0 no; 1 the body throws at one index; 2 the body cancels its task group at one index (TBB)
 };
 static const char *kTypeNames[] = {"uchar", "short", "int", "uint", "long", "llong", "ullong", "size_t"};
 static const int kBlockSizes[]  = {1, 2, 3, 7, 16, 64, 1000};
@@ -243,6 +272,8 @@ static std::string describe(const Case &c, long k, int T)
   if (c.api >= 3)
     s += " inner=" + std::to_string(c.inner);
   s += " cost=" + std::to_string(c.cost) + " inject=" + std::to_string(c.inject);
+  if (c.early)
+    s += c.early == 1 ? " [body throws at one index]" : " [body cancels its task group at one index]";
   return s;
 }
 
@@ -283,7 +314,33 @@ static void runPF(const Case &c, const std::string &ctx, uint64_t cs)
   }
   Mon m((long)c.n, (uint32_t)(cs | 1), c.cost, cs);
   I n = (I)c.n;
-  parallel_for(n, [&](I i) { m.body((long long)i); });
+  const int early       = VH_C01_EARLY_EXIT ? c.early : 0;
+  const long long where = (long long)(cs % (uint64_t)c.n);
+  bool threw            = false;
+  try {
+    // one call site (one closure type per index type) for the loops that end early and the ones that must be exact
+    parallel_for(n, [&](I i) {
+      if (early && (long long)i == where)
+        endLoopEarly(early);
+      m.body((long long)i);
+    });
+  } catch (const EarlyExit &) {
+    threw = true;
+  }
+  if (early) {
+    m.returned.store(true);
+    if (early == 1 && !threw)
+      vh::violation("C01:parallel_for:exception-of-body-lost", "the body threw at index " + std::to_string(where) + " but parallel_for returned normally", ctx);
+    if (m.outOfRange.load())
+      vh::violation("C01:parallel_for:index-outside-range", "callback invoked for an index outside [0,n) in a loop that ended early", ctx);
+    for (long i = 0; i < m.n; ++i)
+      if (m.hits[i].load() > 1) {
+        vh::violation("C01:parallel_for:index-executed-twice", "index " + std::to_string(i) + " executed more than once in a loop that ended early", ctx);
+        break;
+      }
+    vh::count(early == 1 ? "loops_ended_by_exception" : "loops_ended_by_cancellation");
+    return;
+  }
   m.judge("parallel_for", ctx, (long)c.n, c.grace);
 }
 
@@ -338,7 +395,12 @@ static void runBlocksBS(const Case &c, const std::string &ctx, uint64_t cs)
   std::atomic<long> blocks(0), badShape(0);
   std::atomic<long long> badB(0), badE(0);
   I n = (I)c.n;
+  const int early       = VH_C01_EARLY_EXIT ? c.early : 0;
+  const long long where = (long long)(cs % (uint64_t)((c.n + BS - 1) / BS)) * BS;
+  try {
   parallel_in_blocks_of<BS>(n, [&](I b, I e) {
+    if (early && (long long)b == where)
+      endLoopEarly(early);
     m.enter();
     blocks.fetch_add(1);
     long long lb = (long long)b, le = (long long)e;
@@ -355,6 +417,15 @@ static void runBlocksBS(const Case &c, const std::string &ctx, uint64_t cs)
     m.cost(lb);
     m.leave();
   });
+  } catch (const EarlyExit &) {
+  }
+  if (early) {
+    m.returned.store(true);
+    vh::count(early == 1 ? "loops_ended_by_exception" : "loops_ended_by_cancellation");
+    if (badShape.load())
+      vh::violation("C01:blocks:block-shape", "block [" + std::to_string(badB.load()) + "," + std::to_string(badE.load()) + ") is empty, larger than BLOCK_SIZE, misaligned or beyond n (loop that ended early)", ctx);
+    return;
+  }
   long expectBlocks = (long)((c.n + BS - 1) / BS);
   if (badShape.load())
     vh::violation("C01:blocks:block-shape", "block [" + std::to_string(badB.load()) + "," + std::to_string(badE.load()) + ") is empty, larger than BLOCK_SIZE, misaligned or beyond n", ctx);
@@ -571,6 +642,12 @@ static void fullPipeScenario(long k, int T, uint64_t cs)
 static std::vector<Case> buildCases(int T, bool asan, bool internalBackend)
 {
   std::vector<Case> v;
+  const bool tbbBackend =
+#ifdef RKCOMMON_TASKING_TBB
+      true;
+#else
+      false;
+#endif
   vh::Rng r(vh::seed(), 100 + (uint64_t)T);
   const long long big = asan ? vh::tier(20000, 200000) : vh::tier(100000, 1000000);
   std::vector<long long> ns;
@@ -583,6 +660,7 @@ static std::vector<Case> buildCases(int T, bool asan, bool internalBackend)
   c.bs = 0;
   c.cont = 0;
   c.inner = 0;
+  c.early = 0;
   // parallel_for: every type x every n (where representable)
   for (int t = 0; t < 8; ++t)
     for (size_t i = 0; i < ns.size(); ++i) {
@@ -605,7 +683,10 @@ static std::vector<Case> buildCases(int T, bool asan, bool internalBackend)
     c.cost   = (int)r.below(4);
     c.inject = internalBackend && r.chance(1, 2) ? (int)r.pick(std::vector<int>{20, 100, 400}) : 0;
     c.grace  = r.chance(1, 50);
+    // now and then a loop ends early; the loops after it (same call sites) are judged as always
+    c.early  = VH_C01_EARLY_EXIT && r.chance(1, 25) ? (tbbBackend && r.chance(1, 2) ? 2 : 1) : 0;
     v.push_back(c);
+    c.early = 0;
   }
   // blocks: block sizes x n incl. non-multiples
   for (int t = 2; t < 8; ++t)
@@ -622,7 +703,9 @@ static std::vector<Case> buildCases(int T, bool asan, bool internalBackend)
         c.cost   = (int)r.below(3);
         c.inject = internalBackend && r.chance(1, 3) ? 100 : 0;
         c.grace  = r.chance(1, 16);
+        c.early  = VH_C01_EARLY_EXIT && cand[i] > 0 && r.chance(1, 12) ? (tbbBackend && r.chance(1, 2) ? 2 : 1) : 0;
         v.push_back(c);
+        c.early = 0;
       }
     }
   // foreach
@@ -669,6 +752,7 @@ int main(int argc, char **argv)
 #endif
   vh::rule(
       "case = (api, index type, n, block size | container, nesting, body cost profile, hook-delay rate, configured threads); "
+      "on the TBB and serial backends some loops end early (body throws / cancels its group) and only the loops after them are judged; "
       "distinct = hash of that tuple; non-trivial = n > 0 (n <= 0 cases are counted separately). Each call is judged by a per-call "
       "monitor read immediately after the call returns");
   int Ts_quick[]    = {1, 2, 3, 8, 16, 32};
